@@ -89,6 +89,7 @@ inductive Beh
   | try_ (hasCatch hasFin : Bool) (body handler fin : Beh)
   | goCall (n : Nat) (f : FnInfo) (body : Beh)       -- func.go:397 __call (from a native / boundary)
   | api (k : Boundary) (body : Beh)
+  | swallow (k : Boundary) (body : Beh)  -- a native that ignores the error / exception returned by a nested call
   | job (body : Beh)                 -- enqueue a promise reaction job
 deriving Repr, Inhabited
 
@@ -491,6 +492,22 @@ def runProgramOuter (runF : RunF) (lf : Nat) (p : Nat) (b : Beh) (s : Vm) : Res 
 
 /-! ### one layer of the interpreter -/
 
+/-- A native ignores what a nested API call returned: a returned *Exception or StackOverflowError is dropped and
+the native goes on.  An InterruptedError cannot be ignored in effect — the flag is still set (only the outermost
+call clears it), so the caller's run loop raises it again; and an uncatchable passing through `Runtime.Try` is
+a Go panic, not a return value. -/
+def swallowRes (k : Boundary) (s : Vm) (r : Res) : Res :=
+  match r.1 with
+  | .thrown => (.normal, r.2)
+  | .fatal => if k != .try_ && r.2.interrupted == s.interrupted then (.normal, r.2) else r
+  | _ => r
+
+def apiNode (lf : Nat) (runF : RunF) (k : Boundary) (b : Beh) (s : Vm) : Res :=
+  match k with
+  | .try_ => tryB runF b s
+  | .runWrapped => runWrapped runF lf b s
+  | .runProgramRec => runProgramRec runF 7 b s
+
 def step (lf : Nat) (runF : RunF) : Beh → Vm → Res
   | .skip, s => (.normal, s)
   | .seq a b, s =>
@@ -512,9 +529,8 @@ def step (lf : Nat) (runF : RunF) : Beh → Vm → Res
   | .try_ hc hf body handler fin, s =>
     if hc || hf then tryStmt runF hc hf body handler fin s else runF body s
   | .goCall n f b, s => goCall runF n f b s
-  | .api .try_ b, s => tryB runF b s
-  | .api .runWrapped b, s => runWrapped runF lf b s
-  | .api .runProgramRec b, s => runProgramRec runF 7 b s
+  | .api k b, s => apiNode lf runF k b s
+  | .swallow k b, s => swallowRes k s (apiNode lf runF k b s)
   | .job b, s => (.normal, { s with jobQueue := s.jobQueue ++ [b] })
 
 def run : Nat → RunF
